@@ -270,16 +270,17 @@ int main(int argc, char **argv) {
     int n = (int) A.geti("n", 0);
     std::vector<std::string> fams;
     if (A.has("families")) fams = vr::split(A.get("families"), ',');
+    const uint64_t relabel_n = (uint64_t) std::max<long>(1, A.geti("relabel", 1));     // every family additionally under relabel_n - 1 renumberings of its vertices (fixed menu)
     std::unique_ptr<vg::BlobUniverse> blob;
     if (A.has("grammar")) { auto t = vr::split(A.get("grammar"), ':'); blob.reset(new vg::BlobUniverse(atoi(t[1].c_str()), atoi(t[2].c_str()))); }
     int sparse_m = (int) A.geti("sparse", -1);     // --n N --sparse M: every graph on N vertices with at most M edges
-    uint64_t total_units = blob ? blob->size() : !fams.empty() ? fams.size() : sparse_m >= 0 ? vg::num_sparse_graphs(n, sparse_m) : vg::num_graphs(n);
+    uint64_t total_units = blob ? blob->size() : !fams.empty() ? fams.size() * relabel_n : sparse_m >= 0 ? vg::num_sparse_graphs(n, sparse_m) : vg::num_graphs(n);
     uint64_t seed = (uint64_t) A.geti("seed", 0);
     // only the candidate-collection oracle works on 64-bit edge masks; the other components take graphs of any size
     int max_m = (int) A.geti("max-m", comp == "collections" ? 62 : (1 << 30));
     bool weighted = (comp == "sptree" || comp == "collections");
     int orient_mode = (int) A.geti("orient", 0);
-    auto unit_graph0 = [&](uint64_t u) { uint64_t uu = (u + seed) % total_units; return blob ? blob->build(uu) : !fams.empty() ? vg::family(fams[uu]) : sparse_m >= 0 ? vg::sparse_graph(n, sparse_m, uu) : vg::graph_from_mask(n, uu); };
+    auto unit_graph0 = [&](uint64_t u) { uint64_t uu = (u + seed) % total_units; return blob ? blob->build(uu) : !fams.empty() ? vg::relabel(vg::family(fams[uu / relabel_n]), (int) (uu % relabel_n)) : sparse_m >= 0 ? vg::sparse_graph(n, sparse_m, uu) : vg::graph_from_mask(n, uu); };
     auto unit_graph = [&](uint64_t u) { vg::EdgeList g = unit_graph0(u); vg::orient(g, orient_mode); return g; };
     auto describe = [&](uint64_t u, uint64_t sub, uint64_t) {
         vg::EdgeList el = unit_graph(u);
